@@ -67,7 +67,21 @@ func Shrink(ps *PropSpec, tr *Trace, class string, failedAt int, budget time.Dur
 			}
 		}
 	}
-	// per-step simplifications: drop storage-schedule detail, shrink worker counts
+	// per-step simplifications: shrink repeat counts of composite steps, then worker counts
+	for i := range cur.Steps {
+		for cur.Steps[i].N > 1 && time.Now().Before(deadline) {
+			cand := cur
+			cand.Steps = append([]Step(nil), cur.Steps...)
+			cand.Steps[i].N = cur.Steps[i].N / 2
+			if !sameFailure(ps, &cand, class) {
+				cand.Steps[i].N = cur.Steps[i].N - 1
+				if !sameFailure(ps, &cand, class) {
+					break
+				}
+			}
+			cur = cand
+		}
+	}
 	for i := range cur.Steps {
 		if !time.Now().Before(deadline) {
 			break
